@@ -10,6 +10,7 @@ Clause(e_) ==
     ELSE IF e_.bpre # b THEN "scale-changed-between-calls"
     ELSE IF b # None /\ e_.bpost # b THEN "fixed-scale-overwritten"
     ELSE IF b = None /\ e_.bpost \notin {None, e_.xmax} THEN "scale-not-from-first-grid"
+    ELSE IF b = None /\ e_.dep /\ e_.bpost = None THEN "scale-dependent-result-without-fixing-the-scale"
     ELSE IF ~e_.pure THEN "result-depends-on-history"
     ELSE "ok"
 Reset(t_) == /\ tid' = t_ /\ l' = 2 /\ obs' = [kind |-> "none", b |-> None]
